@@ -391,6 +391,38 @@ class OSFS(FS):
     # Optional Methods
     # --------------------------------------------------------
 
+    def removetree(self, dir_path):
+        # type: (Text) -> None
+        """Recursively remove a directory and all its contents.
+
+        Symbolic links are removed themselves; the directories they
+        point to are never entered, so nothing outside of the tree
+        is deleted.
+
+        """
+        self.check()
+        _path = self.validatepath(dir_path)
+        sys_path = self._to_sys_path(_path)
+        with self._lock:
+            with convert_os_errors("removetree", dir_path, directory=True):
+                if _path != "/" and os.path.islink(sys_path):
+                    os.remove(sys_path)
+                    return
+                self._remove_contents(sys_path)
+                if _path != "/":
+                    os.rmdir(sys_path)
+
+    @classmethod
+    def _remove_contents(cls, sys_path):
+        # type: (Text) -> None
+        for name in os.listdir(sys_path):
+            child_path = os.path.join(sys_path, name)
+            if os.path.isdir(child_path) and not os.path.islink(child_path):
+                cls._remove_contents(child_path)
+                os.rmdir(child_path)
+            else:
+                os.remove(child_path)
+
     # --- Type hint for opendir ------------------------------
 
     if typing.TYPE_CHECKING:
